@@ -478,6 +478,10 @@ RULE = ("multi-accept workflow graphs (overlapping exact types, a subclass event
         "accepts the same type, an InputRequiredEvent subclass returned by one step and accepted / awaited by another) x all schedules within the stated deviation bound; per processed add-event tick the runner "
         "state delta is compared with a dict router, and body entries / UnhandledEvent reports are counted at the "
         "end (runs end only after a fan-in of every delivery); non-trivial = at least one schedule deviation")
+from vmc.tables import _ROUND6 as _R6  # noqa: E402
+
+RULE += _R6["C02"]
+
 
 
 def programs(tier: str) -> list[Any]:
